@@ -18,7 +18,34 @@ DOMAINS = {
     "terms": {"timeout": 2400},
     "bitset": {"timeout": 2400},
     "offline": {"timeout": 2400},
+    "solver": {"timeout": 3000},
+    "faults": {"timeout": 3000},
 }
+
+SOLVER_RULE = ("solver runs with a recording provider: (a) tiny scope — 2 packages x 2 versions, every slot one of 15 options (absent, "
+               "unavailable, no deps, one dep on a target in {0,1,unknown 2} with set in {empty, full, {1}, {2}}; so self-dependencies, cycles, "
+               "unknown packages occur), sampled registries (quick) / all 50625 (thorough), both roots, ALL scripts of the family "
+               "(any admissible version at each choose_version, priority in {0,1} at each prioritize) by stateless DFS up to a cap; "
+               "(b) small scope — 2-3 packages x 3 versions, <=2 deps from a pool of 10 sets, a few scripts each; (c) random — 3-8 packages, "
+               "1-5 versions, multi-interval sets, newest/oldest/scripted choice x count/static(perm, ties)/history-dependent/scripted priorities, "
+               "integer and string package names. Each run is replayed through the extracted Coq model (full call trace, result, "
+               "derivation tree) and checked by the oracles. distinct = distinct (registry, trace); non-trivial = the run had a conflict "
+               "(NoSolution, a None answer, or a package asked for a version twice).")
+SOLVER_NOTE = ("Trusted: Coq kernel, extraction, harness/driver, the oracles of ocaml/d_solver.ml. Modelled, not verified: std (partition_point, "
+               "sort), indexmap (insertion order, swap_indices, retain), priority_queue (pop returns a maximum; ties are taken from the recorded "
+               "trace), FxHashMap iteration order of dependency maps (recorded by the harness from the very map it returns). The model is "
+               "coq/Model/Solver.v; it replays the provider trace and must reproduce every call and the result. Termination is not proved "
+               "(every theorem is for arbitrary fuel; the harness uses a call budget).")
+
+def solver_prop(props, level, technique, text, note_extra="", domains=("solver",), extra=None):
+    d = {"props": props, "level": level, "technique": technique, "level_text": text,
+         "level_note": SOLVER_NOTE + (" " + note_extra if note_extra else ""),
+         "domains": list(domains), "rule": SOLVER_RULE, "exhaustive": False,
+         "assumptions": ["provider is well-behaved w.r.t. the generated registry (except in the fault domain)"],
+         "explanation": text}
+    if extra:
+        d.update(extra)
+    return d
 
 RANGE_NOTE = ("Trusted: Coq kernel, ExtrOcamlBasic extraction, harness/driver. Range<V> is modelled by the slice of its segments "
               "(Model/Range.v, hand-written, generic in the ordered version type); std's binary_search_by in `contains` is modelled as the "
@@ -26,6 +53,39 @@ RANGE_NOTE = ("Trusted: Coq kernel, ExtrOcamlBasic extraction, harness/driver. R
               "k bound values (every relative order of bound values, every inclusive/exclusive combination), run on every check.")
 
 PROPS = {
+    "C01": solver_prop(None, "other",
+        "exhaustive-small-scope + random exploration of resolve with an independent solution checker, tied to the Coq model by full-trace correspondence",
+        "NOT yet a Coq theorem (planned: resolve_ok_sound, needs the propagation invariants I7-I9 of DESIGN 5.1). Decided by exploration: every Ok result over the solver case stream is checked against the registry (root at the requested version, every selected version offered by choose_version and with available dependencies, every dependency - including on the own package - satisfied), and the Coq model of the solver must reproduce the run. Finding F1 (self-dependency) was found by this check and repaired in /repo."),
+    "C02": solver_prop("Props/Properties_C02.v", "proof",
+        "Coq proof (store validity invariant + terminal test) for any lawful VersionSet, registry, well-behaved trace and fuel; correspondence + brute-force solution search as oracle",
+        "3 Coq theorems: if the model of resolve returns NoSolution on a provider trace that agrees with the registry, no set of package versions containing the root satisfies all dependencies (for every lawful VersionSet, registry, strategy/trace, fuel); follows from the proved invariant that every stored incompatibility is valid and the terminal test. Tie: full-trace correspondence of the model with the Rust resolve; oracle: complete brute-force search for a solution on every NoSolution result."),
+    "C03": solver_prop(None, "other",
+        "exploration with an independent derivation-tree proof checker, tied to the Coq model by full-trace/tree correspondence",
+        "NOT yet stated as Coq theorems about the tree (the store invariant of C06 already proves that every stored entry is justified by its kind and valid; lifting it to build_derivation_tree is planned). Decided by exploration: every NoSolution tree is checked node by node (leaves against registry and provider answers, each derived node semantically entailed by its two causes over all assignments on the cells of the occurring bounds, top forbids the root, shared ids label identical subtrees occurring at least twice) and must equal the model's tree including shared ids."),
+    "C04": solver_prop(None, "other",
+        "exploration with a reachability checker on every Ok result, tied to the Coq model by correspondence",
+        "NOT yet a Coq theorem (needs I5/I9). Every Ok result is checked: each selected package is reachable from the root through dependencies of selected versions."),
+    "C05": solver_prop(None, "other",
+        "exploration under catch_unwind and a call budget (debug assertions and overflow checks on), every panic site of the source is an explicit outcome of the Coq model",
+        "Termination is not provable with the available effort (section 10). The model has one Panic outcome per panic!/unwrap/expect/unreachable!/debug_assert site and the two Failure returns; the harness (built with debug-assertions and overflow-checks) runs every case under catch_unwind with a 20000-call budget: any panic, Failure or budget exhaustion on a fault-free well-behaved run is a violation; degenerate registries (root without versions, empty sets, unknown packages, cycles, self-dependencies, unavailable versions) are generated on purpose."),
+    "C06": solver_prop("Props/Properties_C06.v", "proof",
+        "Coq proof by invariant over the solver model: every store entry is justified by its kind and valid (external constructors, merged dependents, rule of resolution), preserved by unit propagation, conflict resolution, backtracking and the main loop",
+        "4 Coq theorems: for every lawful VersionSet, registry, well-behaved trace and fuel, every incompatibility in the model's store (external, merged, learned, intermediate prior causes; runs ending in Ok, NoSolution, errors or cut short) is valid: no solution makes all its terms true. Tie: full-trace correspondence; oracle: validity of every store entry of the replayed run against all solutions of the registry (complete enumeration on small registries).",
+        "The store itself is the model's (the Rust arena is private); it is tied to the code through the trace/tree correspondence."),
+    "C07": solver_prop(None, "other",
+        "repeat-run comparison in one process and across fresh processes, integer and string package names; the Coq model is a function of the provider answers",
+        "A Gallina function is deterministic by construction, so the content is that the Rust code is such a function. Every case is run twice in-process (trace and result compared) and the whole case stream is produced a second time by a fresh process with a different environment and compared byte for byte; the model must reproduce every trace from the recorded answers alone.",
+        extra={"cross_process": True}),
+    "C12": solver_prop(None, "other",
+        "protocol checker on every recorded callback trace + Coq model that consumes the trace in protocol order",
+        "NOT yet a Coq theorem about the model's consumed trace (planned). Every recorded trace is checked for the six protocol clauses (get_dependencies only right after the choose_version that returned that version, at most once per (p,v); choose_version with a non-empty set identical to the last prioritize set; first query root with the singleton; should_cancel first and between choose_version calls), and the model only accepts traces in which each call is the one it would make.", domains=("solver", "faults")),
+    "C13": solver_prop(None, "other",
+        "fault enumeration: every position of the fault-free trace, every callback kind, plus out-of-set answers; compared with the Coq model",
+        "For each base run a fault is injected at every index of its callback trace (error at should_cancel / choose_version / get_dependencies; out-of-set version at choose_version): the faulty trace must equal the fault-free one up to the fault, stop there, and the result must be the matching error variant with the same payload (package and version for get_dependencies) or Failure for an out-of-set version; the model reproduces each faulty run.",
+        domains=("faults",)),
+    "C14": solver_prop(None, "other",
+        "per-decision check on the Coq model's decision log replayed from the Rust trace: picked package has maximal queue priority, every undecided positive package is queued with a priority reported for its current set",
+        "NOT yet a Coq theorem (needs I7/I8). At every decision of every replayed run: the package the implementation asked about has the maximal last-reported priority (the model rejects the trace otherwise), every package with a positive term and no decision has a queue entry, and its latest prioritize call was for its current set. Static, set-dependent (count), scripted and history-dependent priorities are used. The root cause of F1 violated this and was found here."),
     "C10": {
         "props": "Props/Properties_C10.v",
         "level": "proof",
